@@ -354,6 +354,12 @@ func (e *Exec) Finish() {
 	}
 	e.net.TakeTx()
 	e.net.TakeEvs()
+	if ledgerAll {
+		// the whole scenario ran under the reference-count ledger of message.go (build tag verif): a message released by
+		// someone who no longer held it goes back to the pool while it is still queued or held elsewhere, and the next
+		// message of that size overwrites it — whatever the property, what it says about message contents is then void
+		ledgerCheckAs(e.c, e.tag+" scenario over virtual pipes", e.Replay(), "the library released or touched a message it no longer held — the buffer returns to the pool while still queued, retained for retransmission or held by the application, and the next message of that size overwrites it")
+	}
 }
 
 // ParkedRecvs counts Recv calls that have not returned yet
